@@ -8,14 +8,13 @@
 
 namespace qsx {
 
-static Q mk_inf(int sign) {
-  Q v;
-  mpz_ui_pow_ui(v.get_num_mpz_t(), 10, 150);
-  if (sign < 0) v = -v;
-  return v;
+// the library's own in-band infinities (set from the double 1e150 in lpdata.c, i.e. NOT 10^150)
+static Q lib_inf(int sign) {
+  QSexactStart();
+  return Q(sign > 0 ? mpq_ILL_MAXDOUBLE : mpq_ILL_MINDOUBLE);
 }
-const Q &PINF() { static Q v = mk_inf(1); return v; }
-const Q &NINF() { static Q v = mk_inf(-1); return v; }
+const Q &PINF() { static Q v = lib_inf(1); return v; }
+const Q &NINF() { static Q v = lib_inf(-1); return v; }
 
 std::string qstr(const Q &q) {
   if (q == PINF()) return "inf";
